@@ -75,7 +75,8 @@ zix_bump_realloc(ZixAllocator* const allocator,
     return NULL;
   }
 
-  const size_t real_size = round_up_multiple(size, min_alignment);
+  // Keep at least one unit so that a block shrunk to zero keeps its own address
+  const size_t real_size = round_up_multiple(size ? size : 1U, min_alignment);
   if (real_size < size || state->last > state->capacity ||
       real_size > state->capacity - state->last) {
     return NULL;
